@@ -12,15 +12,12 @@ Section Logic.
   Variable E : parsed -> value -> M value.
   Notation ev := (pe parsed P E).
 
-  (** ** or / and *)
-  Definition short_step (stop_on : bool) (data : value) :=
-    fun (last_res : M acc3) (cur : value) =>
-      do last <- last_res;
-      match last with
-      | Decided _ => ret last
-      | _ => do e <- ev cur data;
-             if Bool.eqb (truthy e) stop_on then ret (Decided e) else ret (Current e)
-      end.
+  (** ** or / and: one step of the fold, with the stopping polarity as a parameter *)
+  Definition sstep (stop : bool) (d : value) (last : acc3) (cur : value) : M acc3 :=
+    match last with
+    | Decided _ => ret last
+    | _ => do e <- ev cur d; if Bool.eqb (truthy_spec e) stop then ret (Decided e) else ret (Current e)
+    end.
 
   Definition finish (r : acc3) : M value :=
     match r with
@@ -28,61 +25,30 @@ Section Logic.
     | Uninit => fail UnexpectedError
     end.
 
-  Lemma or_unfold data args :
-    or_ parsed P E data args = do r <- fold_left (short_step true data) args (ret Uninit); finish r.
+  Lemma or_unfold d args :
+    or_ parsed P E d args = do r <- foldlM (sstep true d) args Uninit; finish r.
   Proof.
-    unfold or_, short_step, finish.
-    assert (H : forall acc,
-               fold_left (fun last_res cur => do last <- last_res;
-                            match last with
-                            | Decided _ => ret last
-                            | _ => do e <- ev cur data; if truthy e then ret (Decided e) else ret (Current e)
-                            end) args acc =
-               fold_left (fun last_res cur => do last <- last_res;
-                            match last with
-                            | Decided _ => ret last
-                            | _ => do e <- ev cur data; if Bool.eqb (truthy e) true then ret (Decided e) else ret (Current e)
-                            end) args acc).
-    { induction args as [|a r IH]; intros acc; simpl; [reflexivity|].
-      rewrite IH. f_equal. apply bind_ext. intros last. destruct last; try reflexivity;
-        apply bind_ext; intros e; destruct (truthy e); reflexivity. }
-    rewrite H. reflexivity.
+    unfold or_.
+    rewrite (fold_left_bind (fun last cur => match last with
+                                             | Decided _ => ret last
+                                             | _ => do e <- ev cur d; if truthy e then ret (Decided e) else ret (Current e)
+                                             end) args (ret Uninit)).
+    rewrite bind_ret_l. f_equal.
+    apply foldlM_ext. intros s x. unfold sstep. destruct s; try reflexivity;
+      apply bind_ext; intros e; rewrite truthy_eq; destruct (truthy_spec e); reflexivity.
   Qed.
 
-  Lemma and_unfold data args :
-    and_ parsed P E data args = do r <- fold_left (short_step false data) args (ret Uninit); finish r.
+  Lemma and_unfold d args :
+    and_ parsed P E d args = do r <- foldlM (sstep false d) args Uninit; finish r.
   Proof.
-    unfold and_, short_step, finish.
-    assert (H : forall acc,
-               fold_left (fun last_res cur => do last <- last_res;
-                            match last with
-                            | Decided _ => ret last
-                            | _ => do e <- ev cur data; if negb (truthy e) then ret (Decided e) else ret (Current e)
-                            end) args acc =
-               fold_left (fun last_res cur => do last <- last_res;
-                            match last with
-                            | Decided _ => ret last
-                            | _ => do e <- ev cur data; if Bool.eqb (truthy e) false then ret (Decided e) else ret (Current e)
-                            end) args acc).
-    { induction args as [|a r IH]; intros acc; simpl; [reflexivity|].
-      rewrite IH. f_equal. apply bind_ext. intros last. destruct last; try reflexivity;
-        apply bind_ext; intros e; destruct (truthy e); reflexivity. }
-    rewrite H. reflexivity.
-  Qed.
-
-  (** once the fold has failed or decided, the remaining operands are inert *)
-  Lemma short_fold_stuck stop data args t (o : outcome acc3) :
-    stuck o -> fold_left (short_step stop data) args (t, o) = (t, o).
-  Proof.
-    revert t o. induction args as [|a r IH]; intros t o H; simpl; [reflexivity|].
-    destruct o as [x|e| |]; simpl in *; try contradiction; apply IH; exact I.
-  Qed.
-
-  Lemma short_fold_decided stop data args t v :
-    fold_left (short_step stop data) args (t, Ok (Decided v)) = (t, Ok (Decided v)).
-  Proof.
-    revert t. induction args as [|a r IH]; intros t; simpl; [reflexivity|].
-    unfold short_step at 2. simpl. rewrite app_nil_r. apply IH.
+    unfold and_.
+    rewrite (fold_left_bind (fun last cur => match last with
+                                             | Decided _ => ret last
+                                             | _ => do e <- ev cur d; if negb (truthy e) then ret (Decided e) else ret (Current e)
+                                             end) args (ret Uninit)).
+    rewrite bind_ret_l. f_equal.
+    apply foldlM_ext. intros s x. unfold sstep. destruct s; try reflexivity;
+      apply bind_ext; intros e; rewrite truthy_eq; destruct (truthy_spec e); reflexivity.
   Qed.
 
   (** the specification, with the stopping polarity as a parameter *)
@@ -105,162 +71,125 @@ Section Logic.
     cbn [and_spec short_spec]. apply bind_ext. intros v. destruct (truthy_spec v); simpl; [exact IH | reflexivity].
   Qed.
 
-  Lemma short_fold_current stop d args t cur :
-    bind (fold_left (short_step stop d) args (t, Ok (Current cur))) finish =
-    match args with [] => (t, Ok cur) | _ => tapp t (short_spec stop d args) end.
+  (** once decided, the remaining operands are inert *)
+  Lemma sfold_decided stop d args v :
+    (do r <- foldlM (sstep stop d) args (Decided v); finish r) = ret v.
   Proof.
-    revert t cur. induction args as [|a r IH]; intros t cur.
-    - simpl. rewrite app_nil_r. reflexivity.
-    - cbn [fold_left]. unfold short_step at 2. rewrite bind_ok.
-      destruct (ev a d) as [t1 [v|e| |]] eqn:Ea.
-      + rewrite bind_ok. rewrite truthy_eq.
-        destruct (Bool.eqb (truthy_spec v) stop) eqn:Et.
-        * (* decided *)
-          unfold ret at 1. unfold tapp at 1 2. simpl fst. simpl snd. rewrite app_nil_r.
-          rewrite short_fold_decided. simpl. rewrite app_nil_r.
-          destruct r as [|b r]; cbn [short_spec]; rewrite Ea.
-          -- reflexivity.
-          -- rewrite bind_ok, Et. unfold tapp; simpl. rewrite app_nil_r. reflexivity.
-        * unfold ret at 1. unfold tapp at 1 2. simpl fst. simpl snd. rewrite app_nil_r.
-          rewrite IH.
-          destruct r as [|b r]; cbn [short_spec]; rewrite Ea.
-          -- reflexivity.
-          -- rewrite bind_ok, Et. rewrite tapp_tapp. reflexivity.
-      + rewrite bind_err. unfold tapp; simpl. rewrite short_fold_stuck by exact I. simpl.
-        destruct r as [|b r]; cbn [short_spec]; rewrite Ea; reflexivity.
-      + rewrite bind_panic. unfold tapp; simpl. rewrite short_fold_stuck by exact I. simpl.
-        destruct r as [|b r]; cbn [short_spec]; rewrite Ea; reflexivity.
-      + rewrite bind_fuel. unfold tapp; simpl. rewrite short_fold_stuck by exact I. simpl.
-        destruct r as [|b r]; cbn [short_spec]; rewrite Ea; reflexivity.
+    induction args as [|a r IH]; [reflexivity|].
+    cbn [foldlM sstep]. rewrite bind_ret_l. exact IH.
   Qed.
 
-  Lemma short_fold_uninit stop d args :
-    bind (fold_left (short_step stop d) args (ret Uninit)) finish = short_spec stop d args.
+  Lemma sfold_current stop d args c :
+    (do r <- foldlM (sstep stop d) args (Current c); finish r) =
+    match args with [] => ret c | _ => short_spec stop d args end.
   Proof.
-    destruct args as [|a r]; [reflexivity|].
-    cbn [fold_left]. unfold short_step at 2. rewrite bind_ret_l.
-    destruct (ev a d) as [t1 [v|e| |]] eqn:Ea.
-    - rewrite bind_ok, truthy_eq.
-      destruct (Bool.eqb (truthy_spec v) stop) eqn:Et.
-      + unfold ret at 1. unfold tapp. simpl fst; simpl snd. rewrite app_nil_r.
-        rewrite short_fold_decided. simpl. rewrite app_nil_r.
-        destruct r as [|b r]; cbn [short_spec]; rewrite Ea; [reflexivity|].
-        rewrite bind_ok, Et. unfold tapp; simpl. rewrite app_nil_r. reflexivity.
-      + unfold ret at 1. unfold tapp. simpl fst; simpl snd. rewrite app_nil_r.
-        rewrite short_fold_current.
-        destruct r as [|b r]; cbn [short_spec]; rewrite Ea; [reflexivity|].
-        rewrite bind_ok, Et. reflexivity.
-    - rewrite bind_err, short_fold_stuck by exact I. simpl.
-      destruct r as [|b r]; cbn [short_spec]; rewrite Ea; reflexivity.
-    - rewrite bind_panic, short_fold_stuck by exact I. simpl.
-      destruct r as [|b r]; cbn [short_spec]; rewrite Ea; reflexivity.
-    - rewrite bind_fuel, short_fold_stuck by exact I. simpl.
-      destruct r as [|b r]; cbn [short_spec]; rewrite Ea; reflexivity.
+    revert c. induction args as [|a r IH]; intros c; cbn [foldlM]; [reflexivity|].
+    unfold sstep at 1. rewrite !bind_assoc.
+    destruct r as [|b r'].
+    - cbn [short_spec]. rewrite <- (bind_ret_r (ev a d)) at 2. apply bind_ext. intros e.
+      rewrite bind_if, !bind_ret_l. cbn [foldlM]. rewrite !bind_ret_l. simpl. apply if_same.
+    - cbn [short_spec]. apply bind_ext. intros e. rewrite bind_if, !bind_ret_l.
+      destruct (Bool.eqb (truthy_spec e) stop).
+      + apply sfold_decided.
+      + apply (IH e).
+  Qed.
+
+  Lemma sfold_uninit stop d args :
+    (do r <- foldlM (sstep stop d) args Uninit; finish r) = short_spec stop d args.
+  Proof.
+    destruct args as [|a r]; [reflexivity|]. cbn [foldlM]. unfold sstep at 1. rewrite !bind_assoc.
+    destruct r as [|b r'].
+    - cbn [short_spec]. rewrite <- (bind_ret_r (ev a d)) at 2. apply bind_ext. intros e.
+      rewrite bind_if, !bind_ret_l. cbn [foldlM]. rewrite !bind_ret_l. simpl. apply if_same.
+    - cbn [short_spec]. apply bind_ext. intros e. rewrite bind_if, !bind_ret_l.
+      destruct (Bool.eqb (truthy_spec e) stop).
+      + apply sfold_decided.
+      + apply (sfold_current stop d (b :: r') e).
   Qed.
 
   Theorem or_is_spec d args : or_ parsed P E d args = or_spec ev d args.
-  Proof. rewrite or_unfold, short_fold_uninit, or_spec_short. reflexivity. Qed.
+  Proof. rewrite or_unfold, sfold_uninit, or_spec_short. reflexivity. Qed.
 
   Theorem and_is_spec d args : and_ parsed P E d args = and_spec ev d args.
-  Proof. rewrite and_unfold, short_fold_uninit, and_spec_short. reflexivity. Qed.
+  Proof. rewrite and_unfold, sfold_uninit, and_spec_short. reflexivity. Qed.
 
   (** ** if: the fold carries (last value, was truthy, should return) and the index parity *)
-  Notation istep := (if_step parsed P E).
+  Definition istep (d : value) (i : nat) (st : value * bool * bool) (val : value) : M (value * bool * bool) :=
+    let '(last_eval, was_truthy, should_return) := st in
+    if should_return then ret (last_eval, was_truthy, should_return)
+    else if Nat.even i then do e <- ev val d; ret (e, truthy_spec e, false)
+    else if was_truthy then do t <- ev val d; ret (t, true, true)
+    else ret (Null, was_truthy, should_return).
 
-  Lemma if_fold_stuck d args t (o : outcome (value * bool * bool)) i :
-    stuck o -> fst (fold_left (istep d) args ((t, o), i)) = (t, o).
+  Definition first3 (st : value * bool * bool) : M value := ret (fst (fst st)).
+
+  Lemma if_unfold d a b rest :
+    if_ parsed P E d (a :: b :: rest) =
+    do st <- foldlM_i (istep d) (a :: b :: rest) 0 (Null, false, false); first3 st.
   Proof.
-    revert t o i. induction args as [|a r IH]; intros t o i H; simpl; [reflexivity|].
-    destruct o as [x|e| |]; simpl in *; try contradiction; apply IH; exact I.
+    unfold if_.
+    assert (H : forall args acc i,
+               fst (fold_left (if_step parsed P E d) args (acc, i)) =
+               bind acc (fun st => foldlM_i (istep d) args i st)).
+    { intros args acc i.
+      rewrite <- (fold_left_bind_i (istep d) args acc i). f_equal.
+      revert acc i. induction args as [|x r IH]; intros acc i; [reflexivity|].
+      cbn [fold_left]. rewrite <- IH. f_equal. unfold if_step. f_equal.
+      apply bind_ext. intros [[l w] s]. unfold istep.
+      destruct s; [reflexivity|]. destruct (Nat.even i).
+      - apply bind_ext. intros e. rewrite truthy_eq. reflexivity.
+      - reflexivity. }
+    rewrite H. rewrite bind_ret_l. reflexivity.
   Qed.
 
-  Lemma if_fold_done d args t v w i :
-    fst (fold_left (istep d) args ((t, Ok (v, w, true)), i)) = (t, Ok (v, w, true)).
+  Lemma ifold_done d args i l w :
+    (do st <- foldlM_i (istep d) args i (l, w, true); first3 st) = ret l.
   Proof.
-    revert t i. induction args as [|a r IH]; intros t i; simpl; [reflexivity|].
-    rewrite app_nil_r. apply IH.
+    revert i. induction args as [|a r IH]; intros i; [reflexivity|].
+    cbn [foldlM_i istep]. rewrite bind_ret_l. apply IH.
   Qed.
 
-  Definition first3 (m : M (value * bool * bool)) : M value := do st <- m; ret (fst (fst st)).
-
-  (** from an even position, with nothing decided: the fold computes if_spec (on >= 1 operands,
-      where a lone trailing operand is the else-value) *)
+  (** the fold's result when started at an even index with nothing decided *)
   Fixpoint if_tail (d : value) (args : list value) (last : value) : M value :=
-    (* the fold's result when started at an even index with last value [last] *)
     match args with
     | [] => ret last
     | [a] => ev a d
     | c :: b :: rest => do v <- ev c d; if truthy_spec v then ev b d else if_tail d rest Null
     end.
 
-  Lemma if_fold_even d args t last w i :
-    Nat.even i = true ->
-    first3 (fst (fold_left (istep d) args ((t, Ok (last, w, false)), i))) = tapp t (if_tail d args last).
+  Lemma ifold_even d args :
+    forall i last w, Nat.even i = true ->
+      (do st <- foldlM_i (istep d) args i (last, w, false); first3 st) = if_tail d args last.
   Proof.
-    revert t last w i.
-    induction args as [|c [|b rest] IH] using (well_founded_induction
-      (wf_inverse_image _ nat _ (@length value) PeanoNat.Nat.lt_wf_0)).
-    all: intros t last w i Hi.
-    - simpl. unfold first3. rewrite bind_ok. unfold tapp, ret; simpl. reflexivity.
-    - (* one operand left, at an even index *)
-      cbn [fold_left]. unfold if_step at 1. rewrite Hi.
-      cbn [fst]. rewrite bind_ok. cbn [if_tail].
-      destruct (ev c d) as [t1 [v|e| |]]; unfold first3.
-      + rewrite bind_ok. unfold ret, tapp, bind; simpl. rewrite !app_nil_r. reflexivity.
-      + reflexivity.
-      + reflexivity.
-      + reflexivity.
-    - (* a condition and its branch *)
-      cbn [fold_left]. unfold if_step at 2. rewrite Hi. cbn [fst].
-      rewrite bind_ok. cbn [if_tail].
-      destruct (ev c d) as [t1 [v|e| |]] eqn:Ec.
-      + rewrite bind_ok. unfold ret at 1. unfold tapp at 1 2. simpl fst; simpl snd. rewrite app_nil_r.
-        unfold if_step at 1.
-        assert (Hodd : Nat.even (S i) = false).
-        { rewrite Nat.even_succ. rewrite <- Nat.negb_even. rewrite Hi. reflexivity. }
-        rewrite Hodd. rewrite bind_ok. rewrite truthy_eq.
-        destruct (truthy_spec v) eqn:Tv.
-        * destruct (ev b d) as [t2 [x|e| |]] eqn:Eb.
-          -- rewrite bind_ok. unfold ret at 1. unfold tapp at 1 2 3. simpl fst; simpl snd. rewrite app_nil_r.
-             rewrite if_fold_done. unfold first3. rewrite bind_ok. rewrite bind_ok.
-             unfold tapp, ret; simpl. rewrite !app_nil_r, app_assoc. reflexivity.
-          -- rewrite bind_err. unfold tapp at 1 2. simpl fst; simpl snd.
-             rewrite if_fold_stuck by exact I. unfold first3. rewrite bind_ok. reflexivity.
-          -- rewrite bind_panic. unfold tapp at 1 2. simpl fst; simpl snd.
-             rewrite if_fold_stuck by exact I. unfold first3. rewrite bind_ok. reflexivity.
-          -- rewrite bind_fuel. unfold tapp at 1 2. simpl fst; simpl snd.
-             rewrite if_fold_stuck by exact I. unfold first3. rewrite bind_ok. reflexivity.
-        * unfold ret at 1. unfold tapp at 1 2. simpl fst; simpl snd. rewrite app_nil_r.
-          rewrite IH.
-          -- rewrite bind_ok. rewrite tapp_tapp. reflexivity.
-          -- simpl. lia.
-          -- rewrite Nat.even_succ, <- Nat.negb_even, Hodd. reflexivity.
-      + rewrite bind_err. unfold tapp at 1 2; simpl fst; simpl snd.
-        unfold if_step at 1. simpl. rewrite if_fold_stuck by exact I. reflexivity.
-      + rewrite bind_panic. unfold tapp at 1 2; simpl fst; simpl snd.
-        unfold if_step at 1. simpl. rewrite if_fold_stuck by exact I. reflexivity.
-      + rewrite bind_fuel. unfold tapp at 1 2; simpl fst; simpl snd.
-        unfold if_step at 1. simpl. rewrite if_fold_stuck by exact I. reflexivity.
+    induction args as [|c|c b rest IH] using list_ind2; intros i last w Hi.
+    - reflexivity.
+    - cbn [foldlM_i]. unfold istep at 1. rewrite Hi. rewrite !bind_assoc. cbn [if_tail].
+      rewrite <- (bind_ret_r (ev c d)) at 2. apply bind_ext. intros e.
+      rewrite !bind_ret_l. reflexivity.
+    - cbn [foldlM_i]. unfold istep at 1. rewrite Hi. rewrite !bind_assoc. cbn [if_tail].
+      apply bind_ext. intros e. rewrite !bind_ret_l.
+      assert (Hodd : Nat.even (S i) = false) by (rewrite Nat.even_succ, <- Nat.negb_even, Hi; reflexivity).
+      unfold istep at 1. rewrite Hodd.
+      destruct (truthy_spec e).
+      + rewrite !bind_assoc. rewrite <- (bind_ret_r (ev b d)) at 2. apply bind_ext. intros t.
+        rewrite bind_ret_l. apply ifold_done.
+      + rewrite bind_ret_l. apply IH.
+        rewrite Nat.even_succ, <- Nat.negb_even, Hodd. reflexivity.
   Qed.
 
   Lemma if_tail_spec d args : args <> [] -> if_tail d args Null = if_spec ev d args.
   Proof.
-    induction args as [|c [|b rest] IH] using (well_founded_induction
-      (wf_inverse_image _ nat _ (@length value) PeanoNat.Nat.lt_wf_0)).
-    all: intros Hne.
+    induction args as [|c|c b rest IH] using list_ind2; intros Hne.
     - contradiction.
     - reflexivity.
     - cbn [if_tail if_spec]. apply bind_ext. intros v. destruct (truthy_spec v); [reflexivity|].
-      destruct rest as [|x rest']; [reflexivity|]. apply IH; [simpl; lia | discriminate].
+      destruct rest as [|x rest']; [reflexivity|]. apply IH. discriminate.
   Qed.
 
   Theorem if_is_spec d args : if_ parsed P E d args = if_spec ev d args.
   Proof.
     destruct args as [|a [|b rest]]; [reflexivity | reflexivity |].
-    unfold if_.
-    change (do st <- fst (fold_left (istep d) (a :: b :: rest) (ret (Null, false, false), 0)); ret (fst (fst st)))
-      with (first3 (fst (fold_left (istep d) (a :: b :: rest) (([], Ok (Null, false, false)), 0)))).
-    rewrite if_fold_even by reflexivity. rewrite tapp_nil. apply if_tail_spec. discriminate.
+    rewrite if_unfold, ifold_even by reflexivity. apply if_tail_spec. discriminate.
   Qed.
 
   (** ** Independence: what follows the deciding operand does not matter (no trace involved) *)
@@ -274,19 +203,13 @@ Section Logic.
     if_ parsed P E d (c :: b :: rest) = if_ parsed P E d (c :: b' :: rest).
   Proof. intros Hc Hv. rewrite !if_is_spec. cbn [if_spec]. rewrite Hc, !bind_ok, Hv. reflexivity. Qed.
 
-  Corollary or_ignores_rest d a b rest rest' t v :
+  Corollary or_ignores_rest d a b rest b' rest' t v :
     ev a d = (t, Ok v) -> truthy_spec v = true ->
-    or_ parsed P E d (a :: b :: rest) = or_ parsed P E d (a :: rest').
-  Proof.
-    intros Ha Hv. rewrite !or_is_spec. cbn [or_spec]. rewrite Ha.
-    destruct rest' as [|x r]; rewrite ?bind_ok, ?Hv; unfold tapp, ret; simpl; rewrite ?app_nil_r; reflexivity.
-  Qed.
+    or_ parsed P E d (a :: b :: rest) = or_ parsed P E d (a :: b' :: rest').
+  Proof. intros Ha Hv. rewrite !or_is_spec. cbn [or_spec]. rewrite Ha, !bind_ok, Hv. reflexivity. Qed.
 
-  Corollary and_ignores_rest d a b rest rest' t v :
+  Corollary and_ignores_rest d a b rest b' rest' t v :
     ev a d = (t, Ok v) -> truthy_spec v = false ->
-    and_ parsed P E d (a :: b :: rest) = and_ parsed P E d (a :: rest').
-  Proof.
-    intros Ha Hv. rewrite !and_is_spec. cbn [and_spec]. rewrite Ha.
-    destruct rest' as [|x r]; rewrite ?bind_ok, ?Hv; unfold tapp, ret; simpl; rewrite ?app_nil_r; reflexivity.
-  Qed.
+    and_ parsed P E d (a :: b :: rest) = and_ parsed P E d (a :: b' :: rest').
+  Proof. intros Ha Hv. rewrite !and_is_spec. cbn [and_spec]. rewrite Ha, !bind_ok, Hv. reflexivity. Qed.
 End Logic.
